@@ -353,7 +353,7 @@ example (p : List Nat) (hp : p = [100] ∨ p = [100, 101] ∨ p = [100, 101, 102
         Gen.srcConsts Gen.srcScoreOrder (tokenizeQuery Gen.srcProg exEnv p), res.id = 42 := by
   have key := fun k hk ha =>
     C03_prefix_ascii_found_src exSorter exSorter_ok toyU Gen.lang_en toyStem toyU_facts toyU_asciiFacts tablesOK_en
-      asciiFree_en (fun _ => toyStem_bounded _) exOps exOps_tok (by decide +kernel) 0 exRec (by decide +kernel)
+      asciiFree_en (toyStemHyp _ (by decide)) exOps exOps_tok (by decide +kernel) 0 exRec (by decide +kernel)
       exW (by decide +kernel) k hk ha
   rcases hp with rfl | rfl | rfl
   · obtain ⟨res, h1, h2, _⟩ := key 1 (by decide) (by rw [exW_chars]; decide)
@@ -380,7 +380,7 @@ example : ∃ res ∈ ((Store.new Gen.srcConsts).run exSorter Gen.srcConsts Gen.
     exact ⟨_, hm.2.1⟩
   obtain ⟨res, h1, h2, _⟩ :=
     C03_prefix_typed_found_src exSorter exSorter_ok toyU Gen.lang_de toyStem toyU_facts tablesOK_de
-      (fun _ => toyStem_bounded _) deOps hops (by decide +kernel) 0 deRec (by decide +kernel) deW (by decide +kernel)
+      (toyStemHyp _ (by decide)) deOps hops (by decide +kernel) 0 deRec (by decide +kernel) deW (by decide +kernel)
       5 (by decide) (by rw [deW_chars]; decide +kernel) (by rw [deW_chars]; decide +kernel)
       (by rw [deW_chars]; decide +kernel)
   rw [deW_chars] at h1
@@ -400,7 +400,7 @@ example : ∃ res ∈ ((Store.new Gen.srcConsts).run exSorter Gen.srcConsts Gen.
     exact ⟨_, hm.2.1⟩
   obtain ⟨res, h1, h2, _⟩ :=
     C04_single_edit_ascii_found_src exSorter exSorter_ok toyU Gen.lang_en toyStem toyU_facts toyU_asciiFacts
-      tablesOK_en asciiFree_en (fun _ => toyStem_bounded _) pOps hops (by decide +kernel) 0 pRec (by decide +kernel)
+      tablesOK_en asciiFree_en (toyStemHyp _ (by decide)) pOps hops (by decide +kernel) 0 pRec (by decide +kernel)
       pWord (by decide +kernel) (by decide) (by rw [pWord_chars]; decide) [112, 108, 111, 110, 101, 116] (by decide)
       (by rw [pWord_chars]; exact Edit1.sub [112, 108] [110, 101, 116] 97 111 (by decide))
   exact ⟨res, h1, h2⟩
@@ -410,7 +410,7 @@ example : ∃ res ∈ ((Store.new Gen.srcConsts).run exSorter Gen.srcConsts Gen.
     Gen.srcConsts Gen.srcScoreOrder (tokenizeQuery Gen.srcProg exEnv [65, 98, 99, 32, 100, 101, 102]), res.id = 42 := by
   obtain ⟨res, h1, h2, _⟩ :=
     C13_whole_title_typed_src exSorter exSorter_ok toyU Gen.lang_en toyStem toyU_facts tablesOK_en
-      (fun _ => toyStem_bounded _) exOps exOps_tok (by decide +kernel) 0 exRec (by decide +kernel)
+      (toyStemHyp _ (by decide)) exOps exOps_tok (by decide +kernel) 0 exRec (by decide +kernel)
       [65, 98, 99, 32, 100, 101, 102] rfl (by decide +kernel)
   exact ⟨res, h1, h2⟩
 
